@@ -261,7 +261,14 @@ pub fn next_hasher_seed() -> u64 { NEXT_SEED.with(|s| { let v = s.get(); s.set(v
 
 impl BuildHasher for TH {
     type Hasher = THH;
-    fn build_hasher(&self) -> THH { THH(if self.0 == 3 || self.0 == 5 { self.1 } else { 0 }, self.0) }
+    fn build_hasher(&self) -> THH { THH(if self.0 == 3 || self.0 == 5 || self.0 == 8 { self.1 } else { 0 }, self.0) }
+    /// kind 8 specialises the one-shot method (as ahash does on nightly): a container has to use one of the two ways consistently
+    fn hash_one<T: Hash>(&self, x: T) -> u64 {
+        let mut h = self.build_hasher();
+        x.hash(&mut h);
+        let v = h.finish();
+        if self.0 == 8 { v.rotate_left(29) ^ 0x5DEECE66D } else { v }
+    }
 }
 
 impl Hasher for THH {
@@ -282,6 +289,6 @@ impl Hasher for THH {
     fn write_u32(&mut self, x: u32) { self.0 = self.0.wrapping_mul(31).wrapping_add(x as u64); }
 }
 
-pub const HASHER_NAMES: [&str; 8] = ["const", "mod3", "hibits", "mix", "default", "mix16", "const-ones", "coarse"];
+pub const HASHER_NAMES: [&str; 9] = ["const", "mod3", "hibits", "mix", "default", "mix16", "const-ones", "coarse", "mix-with-specialised-hash_one"];
 /// hasher kinds of the deterministic family (4 = hashbrown's default hasher, not a TH kind)
-pub const TH_KINDS: [u8; 7] = [0, 1, 2, 3, 5, 6, 7];
+pub const TH_KINDS: [u8; 8] = [0, 1, 2, 3, 5, 6, 7, 8];
